@@ -7,6 +7,18 @@ HOOK_COMMITS = subprocess.run(["git", "-C", "/repo", "log", "--format=%h %s", "-
 
 # id -> (technique, level text, level note, design ref)
 CLAIMED = {
+ "C05": ("fault-injection property testing: generated live sessions (calls in flight, busy publishers, consumers, half-assembled content) x one generated fault (EOF / I/O error at a byte offset, write error at the n-th write, malformed frame, server close, forced client exception, heartbeat silence); oracle = invariants on every caller's result, consumer termination, close's root cause and transport release",
+         "Exploration over crash points: every caller is released with an error, consumer queues terminate, Connection::close names the root cause (variant, io kind, code/text), the transport is dropped, no panic - all within seconds.",
+         "Fault positions are byte offsets of the inbound stream / write-call indices of the outbound stream owned by the mock transport; what the client threads were doing at that instant is sampled by OS scheduling. A fault that never became visible is a trivial case. Hangs need confirmation by replay.",
+         "DESIGN.md 4/C05"),
+ "C17": ("real-clock property testing: generated heartbeat options and traffic patterns, all cases of a run executed concurrently; oracle = timing bounds on client writes and on the moment of death",
+         "Exploration on the wall clock: gap between client writes <= h + 0.9 s, a fed connection is never declared dead, silence is fatal not before 2h - 0.05 s and not after 2h + 0.9 s, h = 0 disables everything.",
+         "Whole-second protocol granularity limits h to {1, 2, 3}. Lateness breaches must recur on every re-execution before they are reported (CPU contention can delay but not hasten); lower-bound breaches are reported at once. No virtual time: the timer wheel lives in mio-extras.",
+         "DESIGN.md 4/C17"),
+ "C18": ("property-based testing with a budget-scripted transport: generated tuning x publishers x stall / trickle / release script; oracle = tuning-derived buffering bound, blocked-publisher and resume observations, exactly-once in-order wire content",
+         "Exploration: while the transport accepts nothing, accepted-minus-written bytes stay within a tuning-derived limit and publishers block; after release everybody resumes (including an open_channel issued during the stall) and every accepted message is on the wire exactly once, in order.",
+         "The limit is deliberately generous (the I/O loop tests the mark only between event batches): high-water + channels x (4 x bound + 8) x message size; total quota is four times that, so missing throttling overshoots it. mem_channel_bound = 0 is a separate enumerated scenario.",
+         "DESIGN.md 4/C18"),
  "C08": ("property-based testing of the close handshake: generated session state (channels, consumers, racing numbered publishes and calls on other threads, stalled transport) x close direction x server follow-up; oracle = invariants over the final wire log and every caller's first error",
          "Exploration: final frame, exactly-one close frames, close result in all follow-up variants, first error per channel, terminal message per consumer, and gap-free prefix of each channel's racing publishes.",
          "Racing threads are scheduled by the OS (sampled). A publish cut short by the close is accepted only as the last thing on its channel.",
